@@ -267,7 +267,8 @@ def gen_history_cases(ctx, n, has_artifact):
 
     def mk(base, k, rev, sessions, nfits=None, start="file", features=False):
         return {"kind": "history", "start": start, "base": base, "k": k, "rev": rev,
-                "nfits": rng.choice([0, 1, 2, 2]) if nfits is None else nfits, "sessions": sessions, "features": features}
+                "nfits": rng.choice([0, 1, 2, 2]) if nfits is None else nfits, "sessions": sessions, "features": features,
+                "relpath": rng.random() < 0.3}
 
     # systematic: every revision x every reachable revision-table state x {read-only, committing} first session
     for k in range(n + 1):
@@ -733,6 +734,7 @@ def run(ctx):
             ctx.hist("start", "fresh" if c["start"] == "fresh" else "%s k=%d %s" % (c["base"], c["k"], c["rev"].split(":")[0]))
             ctx.hist("sessions", len(c["sessions"]))
             ctx.hist("features", bool(c.get("features")))
+            ctx.hist("relative_filename", bool(c.get("relpath")))
         if "exc" in r:
             ctx.oracle["failures"] += 1
             ctx.failure("oracle", "driver raised %s: %s" % (r["exc"], r.get("msg")), c, impl=r)
